@@ -233,18 +233,15 @@ Section Inv.
 
   (* ---------------------------------------------------------------- inversion of pstep *)
 
-  Definition add_trace (c : config) (e : tentry X) : config :=
-    mkCfg (c_insts c) (c_objs c) (c_trace c ++ [e]) (c_gens c).
-
   Lemma pstep_start_inv : forall c r c', pstep c (ChStart r) = Some c' ->
     exists G, nth_error f 0 = Some G /\ c' = new_inst c r 0 G None None x0.
   Proof. intros. simpl in H. unstep H. inv H. eauto. Qed.
 
   Lemma pstep_acq_inv : forall c i n c', pstep c (ChAcq i n) = Some c' ->
-    exists J a p k x o v v0 oi,
+    exists J a p k x o r,
       lookup c i n = Some (J, a, mkNs p None) /\ next_cs X a p = Some k /\ pos_x X p = Some x /\
-      i_obj J = Some o /\ nth_error (c_objs c) o = Some (mkObj v None v0 oi) /\
-      c' = set_inst S X (add_trace (set_obj S X c o (mkObj v (Some (i, n)) v0 oi)) (mkT o i a k x)) i
+      i_obj J = Some o /\ nth_error (c_objs c) o = Some r /\ o_holder r = None /\
+      c' = set_inst S X (add_acq S X (set_obj S X c o (with_holder S r (Some (i, n)))) (mkA o i n k)) i
                     (set_ns S X J n (mkNs p (Some CsAcq))).
   Proof.
     intros. simpl in H. unstep H. inv H. repeat eexists; eauto.
@@ -264,7 +261,7 @@ Section Inv.
       lookup c i n = Some (J, a, mkNs p (Some (CsLoaded l))) /\ next_cs X a p = Some k /\
       pos_x X p = Some x /\ i_obj J = Some o /\ nth_error (c_objs c) o = Some r /\
       hfun k (n_id a) x l = (x', s') /\
-      c' = set_inst S X (set_obj S X c o (mkObj s' (o_holder r) (o_init r) (o_inst r))) i
+      c' = set_inst S X (add_trace S X (set_obj S X c o (with_val S r s')) (mkT o i a k x l x')) i
                     (set_ns S X J n (mkNs (set_x X p x') (Some CsStored))).
   Proof.
     intros. simpl in H. unstep H. inv H. repeat eexists; eauto.
@@ -274,7 +271,7 @@ Section Inv.
     exists J a p o r q,
       lookup c i n = Some (J, a, mkNs p (Some CsStored)) /\ i_obj J = Some o /\
       nth_error (c_objs c) o = Some r /\
-      c' = set_inst S X (set_obj S X c o (mkObj (o_val r) None (o_init r) (o_inst r))) i
+      c' = set_inst S X (set_obj S X c o (with_holder S r None)) i
                     (set_doneq S X (set_ns S X J n (mkNs (after_cs X p) None)) q).
   Proof.
     intros. simpl in H.
@@ -288,15 +285,15 @@ Section Inv.
     eexists. repeat split; auto.
   Qed.
 
+  Definition resumed (c : config) (o : nat) (m : S -> S) (r : objrec S) : config :=
+    mkCfg (map (remap S X o (List.length (c_objs c))) (c_insts c))
+          (c_objs c ++ [mkObj (m (o_val r)) None (m (o_val r)) (o_inst r) (OResumed o m)])
+          (c_trace c) (c_acq c) (c_gens c).
+
   Lemma pstep_resume_inv : forall c o m c', pstep c (ChResume o m) = Some c' ->
-    exists v v0 oi,
-      nth_error (c_objs c) o = Some (mkObj v None v0 oi) /\
-      c' = mkCfg (map (fun J => match i_obj J with
-                                | Some o1 => if Nat.eqb o1 o then set_iobj S X J (Some (List.length (c_objs c))) else J
-                                | None => J end) (c_insts c))
-                 (c_objs c ++ [mkObj (m v) None (m v) oi]) (c_trace c) (c_gens c).
+    exists r, nth_error (c_objs c) o = Some r /\ o_holder r = None /\ c' = resumed c o m r.
   Proof.
-    intros. simpl in H. unstep H. inv H. repeat eexists; eauto.
+    intros. simpl in H. unstep H. inv H. eexists; eauto.
   Qed.
 
   (* how a position changes in a ChAdv step that does not start a nested graph *)
@@ -351,29 +348,116 @@ Section Inv.
     - discriminate.
   Qed.
 
+  (* ---------------------------------------------------------------- frame lemmas *)
+
+  Definition same_static (J1 J2 : inst) : Prop :=
+    i_run J1 = i_run J2 /\ i_graph J1 = i_graph J2 /\ i_parent J1 = i_parent J2 /\
+    i_obj J1 = i_obj J2 /\ i_in J1 = i_in J2.
+
+  Lemma same_static_refl : forall J, same_static J J.
+  Proof. intros; repeat split. Qed.
+
+  Lemma upd_cases : forall A (l : list A) i a j b,
+    nth_error (upd l i a) j = Some b ->
+    (j = i /\ b = a /\ (i < List.length l)%nat) \/ (j <> i /\ nth_error l j = Some b).
+  Proof.
+    intros. rewrite nth_upd in H. destruct (Nat.eqb_spec i j).
+    - subst. destruct (Nat.ltb_spec j (List.length l)); inv H. auto.
+    - right. auto.
+  Qed.
+
+  (* after a move of node n of instance i: any node status found afterwards is either the
+     moved one or was there before *)
+  Lemma moved_cases : forall (insts : list inst) i J n s' q i0 J0 n0 s0,
+    nth_error insts i = Some J ->
+    nth_error (upd insts i (set_doneq S X (set_ns S X J n s') q)) i0 = Some J0 ->
+    get_ns S X J0 n0 = Some s0 ->
+    (i0 = i /\ n0 = n /\ s0 = s' /\ same_static J J0) \/
+    (exists J1, nth_error insts i0 = Some J1 /\ get_ns S X J1 n0 = Some s0 /\ same_static J1 J0 /\
+                (i0 <> i \/ n0 <> n)).
+  Proof.
+    intros insts i J n s' q i0 J0 n0 s0 Ei Hi Hg.
+    apply upd_cases in Hi. destruct Hi as [(-> & -> & _)|(Hne & Hi)].
+    - change (get_ns S X (set_ns S X J n s') n0 = Some s0) in Hg. rewrite get_set_ns in Hg.
+      destruct (N.eqb_spec n0 n).
+      + inv Hg. left. repeat split.
+      + right. exists J. repeat split; auto.
+    - right. exists J0. repeat split; auto.
+  Qed.
+
+  Lemma moved_cases' : forall (insts : list inst) i J n s' i0 J0 n0 s0,
+    nth_error insts i = Some J ->
+    nth_error (upd insts i (set_ns S X J n s')) i0 = Some J0 ->
+    get_ns S X J0 n0 = Some s0 ->
+    (i0 = i /\ n0 = n /\ s0 = s' /\ same_static J J0) \/
+    (exists J1, nth_error insts i0 = Some J1 /\ get_ns S X J1 n0 = Some s0 /\ same_static J1 J0 /\
+                (i0 <> i \/ n0 <> n)).
+  Proof. intros. eapply (moved_cases insts i J n s' (i_doneq J)); eauto. Qed.
+
+  Lemma find_in_graph_id : forall n ns a, find_in_graph n ns = Some a -> n_id a = n.
+  Proof.
+    induction ns; simpl; intros; [discriminate|].
+    destruct (N.eqb_spec (n_id a) n); [congruence|auto].
+  Qed.
+
+  Lemma new_inst_insts : forall c r g G par inh x i J,
+    nth_error (c_insts (new_inst c r g G par inh x)) i = Some J ->
+    nth_error (c_insts c) i = Some J \/
+    (i = List.length (c_insts c) /\
+     J = mkInst r g par (if g_state G then Some (List.length (c_objs c)) else inh) x (init_ns S X G) []).
+  Proof.
+    intros. unfold StateLockLTS.new_inst in H. destruct (g_state G); simpl in H;
+    apply nth_app_cases in H; destruct H as [[H _]|[H1 H2]]; auto.
+  Qed.
+
+  Lemma new_inst_trace : forall c r g G par inh x, c_trace (new_inst c r g G par inh x) = c_trace c.
+  Proof. intros. unfold StateLockLTS.new_inst. destruct (g_state G); reflexivity. Qed.
+
+  Lemma resumed_insts : forall c o m r i J,
+    nth_error (c_insts (resumed c o m r)) i = Some J ->
+    exists J1, nth_error (c_insts c) i = Some J1 /\ J = remap S X o (List.length (c_objs c)) J1.
+  Proof.
+    intros. unfold resumed in H; simpl in H. rewrite nth_error_map in H.
+    destruct (nth_error (c_insts c) i) as [J1|]; [|discriminate]. inv H. eauto.
+  Qed.
+
+  Lemma remap_static : forall o o' (J : inst),
+    i_run (remap S X o o' J) = i_run J /\ i_graph (remap S X o o' J) = i_graph J /\
+    i_parent (remap S X o o' J) = i_parent J /\ i_in (remap S X o o' J) = i_in J /\
+    i_ns (remap S X o o' J) = i_ns J /\ i_doneq (remap S X o o' J) = i_doneq J.
+  Proof.
+    intros. unfold remap. destruct (i_obj J); [destruct (Nat.eqb n o)|]; repeat split.
+  Qed.
+
   Ltac split_eb Eb :=
     apply andb_true_iff in Eb; let E1 := fresh in let E2 := fresh in destruct Eb as [E1 E2];
     apply Nat.eqb_eq in E1; apply N.eqb_eq in E2; subst.
 
-  Lemma cs_of_resume : forall c o o' i n,
-    cs_of (mkCfg (map (fun J => match i_obj J with
-                                | Some o1 => if Nat.eqb o1 o then set_iobj S X J (Some o') else J
-                                | None => J end) (c_insts c))
-                 (c_objs c ++ [mkObj (gen 0) None (gen 0) 0]) (c_trace c) (c_gens c)) i n
+  Lemma cs_of_resume : forall c o m r i n,
+    cs_of (resumed c o m r) i n
     = match cs_of c i n with
-      | Some o1 => if Nat.eqb o1 o then Some o' else Some o1
+      | Some o1 => if Nat.eqb o1 o then Some (List.length (c_objs c)) else Some o1
       | None => None
       end.
   Proof.
-    intros. unfold cs_of; simpl. rewrite nth_error_map.
+    intros. unfold cs_of, resumed; simpl. rewrite nth_error_map.
     destruct (nth_error (c_insts c) i) as [J|]; simpl; auto.
-    destruct (i_obj J) as [o1|] eqn:Eo.
+    unfold remap. destruct (i_obj J) as [o1|] eqn:Eo.
     - destruct (Nat.eqb o1 o) eqn:E1.
       + unfold get_ns, set_iobj; simpl. destruct (nlist_get n (i_ns J)); auto.
         destruct (ns_cs n0); auto; try rewrite Eo; try rewrite E1; auto.
       + destruct (get_ns S X J n); auto. destruct (ns_cs n0); auto; try rewrite Eo; try rewrite E1; auto.
     - destruct (get_ns S X J n); auto. destruct (ns_cs n0); auto; try rewrite Eo; auto.
   Qed.
+
+  Lemma cs_of_add_acq : forall c e i n, cs_of (add_acq S X c e) i n = cs_of c i n.
+  Proof. reflexivity. Qed.
+  Lemma cs_of_add_trace : forall c e i n, cs_of (add_trace S X c e) i n = cs_of c i n.
+  Proof. reflexivity. Qed.
+  Lemma holder_add_acq : forall c e o, holder (add_acq S X c e) o = holder c o.
+  Proof. reflexivity. Qed.
+  Lemma holder_add_trace : forall c e o, holder (add_trace S X c e) o = holder c o.
+  Proof. reflexivity. Qed.
 
   Lemma inv_lock_step : forall c ch c', inv_lock c -> pstep c ch = Some c' -> inv_lock c'.
   Proof.
@@ -382,15 +466,14 @@ Section Inv.
       rewrite cs_of_new_inst, holder_new_inst. apply IH.
     - (* acquire *)
       apply pstep_acq_inv in H.
-      destruct H as (J & a & p & k & x & o & v & v0 & oi & El & Ek & Ex & Eo & Er & ->).
+      destruct H as (J & a & p & k & x & o & r & El & Ek & Ex & Eo & Er & Eh & ->).
       apply lookup_inv in El. destruct El as (Ei & Eg & _).
       assert (Hlt : (o < List.length (c_objs c))%nat) by (eapply nth_some_lt; eauto).
       assert (Hnone : holder c o = None) by (unfold holder; rewrite Er; auto).
       assert (Hme : cs_of c i n = None) by (unfold cs_of; rewrite Ei, Eg; auto).
       intros i' n' o'.
       rewrite (cs_of_upd_node c); [|reflexivity|exact Ei].
-      rewrite holder_set_inst.
-      rewrite (holder_objs_eq _ (set_obj S X c o (mkObj v (Some (i, n)) v0 oi))) by reflexivity.
+      rewrite holder_set_inst, holder_add_acq.
       rewrite holder_set_obj by auto. simpl.
       destruct (Nat.eqb_spec o o').
       + subst o'. destruct (Nat.eqb i i' && N.eqb n' n) eqn:Eb.
@@ -416,7 +499,7 @@ Section Inv.
       apply lookup_inv in El. destruct El as (Ei & Eg & _).
       assert (Hlt : (o < List.length (c_objs c))%nat) by (eapply nth_some_lt; eauto).
       intros i' n' o'. rewrite (cs_of_upd_node c); [|reflexivity|exact Ei].
-      rewrite holder_set_inst, holder_set_obj by auto. simpl.
+      rewrite holder_set_inst, holder_add_trace, holder_set_obj by auto. simpl.
       assert (Hh : (if Nat.eqb o o' then o_holder r else holder c o') = holder c o').
       { destruct (Nat.eqb_spec o o'); auto. subst. unfold holder. rewrite Er. auto. }
       rewrite Hh.
@@ -457,20 +540,12 @@ Section Inv.
           -- rewrite <- (IH _ _ _). unfold cs_of. rewrite Ei. reflexivity.
         * rewrite cs_of_new_inst. apply IH.
     - (* resume *)
-      apply pstep_resume_inv in H. destruct H as (v & v0 & oi & Er & ->).
+      apply pstep_resume_inv in H. destruct H as (r & Er & Eh & ->).
       assert (Hlt : (o < List.length (c_objs c))%nat) by (eapply nth_some_lt; eauto).
       assert (Hnone : holder c o = None) by (unfold holder; rewrite Er; auto).
       intros i n o'.
-      assert (Hcs : cs_of (mkCfg (map (fun J => match i_obj J with
-                                | Some o1 => if Nat.eqb o1 o then set_iobj S X J (Some (List.length (c_objs c))) else J
-                                | None => J end) (c_insts c))
-                 (c_objs c ++ [mkObj (m v) None (m v) oi]) (c_trace c) (c_gens c)) i n
-              = match cs_of c i n with
-                | Some o1 => if Nat.eqb o1 o then Some (List.length (c_objs c)) else Some o1
-                | None => None end).
-      { rewrite <- (cs_of_resume c o (List.length (c_objs c)) i n). apply cs_of_insts_eq. reflexivity. }
-      rewrite Hcs. clear Hcs.
-      unfold holder at 1; simpl.
+      rewrite cs_of_resume.
+      unfold holder at 1, resumed; simpl.
       destruct (cs_of c i n) as [o1|] eqn:Ec.
       + assert (Ho1 : holder c o1 = Some (i, n)) by (apply IH; auto).
         destruct (Nat.eqb_spec o1 o); [subst; congruence|].
@@ -503,5 +578,40 @@ Section Inv.
     assert (H2 : cs_of c i' n' = Some o) by (unfold cs_of; rewrite Ei', Eg', Ec'; auto).
     apply (inv_lock_reach c Hr) in H1. apply (inv_lock_reach c Hr) in H2.
     rewrite H1 in H2. inv H2. auto.
+  Qed.
+
+  (* ---------------------------------------------------------------- executions *)
+
+  Lemma run_steps_preach : forall l c c', preach c -> run_steps S X pstep c l = Some c' -> preach c'.
+  Proof.
+    induction l; simpl; intros c c' Hc H.
+    - inv H. auto.
+    - destruct (pstep c a) eqn:E; [|discriminate]. eapply IHl; [|exact H]. econstructor; eauto.
+  Qed.
+
+  Lemma run_steps_reach : forall l c c', reach c -> run_steps S X step c l = Some c' -> reach c'.
+  Proof.
+    induction l; simpl; intros c c' Hc H.
+    - inv H. auto.
+    - destruct (step c a) eqn:E; [|discriminate]. eapply IHl; [|exact H]. econstructor; eauto.
+  Qed.
+
+  Lemma enabled_sound : forall c ch c', In (ch, c') (enabled S X gen hfun lout mrg f x0 c) -> step c ch = Some c'.
+  Proof.
+    intros c ch c' H. unfold enabled in H. apply in_flat_map in H. destruct H as (ch0 & _ & H).
+    destruct (step c ch0) eqn:E; simpl in H; [|contradiction]. destruct H as [H|[]]. inv H. auto.
+  Qed.
+
+  Lemma run_sched_reach : forall picks c, reach c -> reach (run_sched S X gen hfun lout mrg f x0 c picks).
+  Proof.
+    induction picks as [|a picks IHpicks]; intros c Hc; [exact Hc|].
+    cbn [run_sched].
+    destruct (enabled S X gen hfun lout mrg f x0 c) as [|e es] eqn:E; auto.
+    apply IHpicks.
+    set (k := Nat.modulo a (Datatypes.S (List.length es))).
+    assert (Hin : In (nth k (e :: es) e) (enabled S X gen hfun lout mrg f x0 c)).
+    { rewrite E. apply nth_In. simpl. apply Nat.mod_upper_bound. discriminate. }
+    destruct (nth k (e :: es) e) as [ch c']. cbn [snd].
+    apply enabled_sound in Hin. econstructor; eauto.
   Qed.
 End Inv.
